@@ -31,7 +31,11 @@ import (
 // Array constructs a field with the given key and ArrayMarshaler. It provides
 // a flexible, but still type-safe and efficient, way to add array-like types
 // to the logging context. The struct's MarshalLogArray method is called lazily.
+// A nil ArrayMarshaler is logged as an explicit null.
 func Array(key string, val zapcore.ArrayMarshaler) Field {
+	if val == nil {
+		return nilField(key)
+	}
 	return Field{Key: key, Type: zapcore.ArrayMarshalerType, Interface: val}
 }
 
